@@ -136,6 +136,27 @@ VERUS.append(dict(
         dict(name="linear_skips_rows", item="search_in_slice", find="low += 1;", replace="low += 2;"),
     ],
 ))
+FWF = "datafusion/expr/src/window_frame.rs"
+_DERC = "#[derive(PartialEq, Eq, Structural, Clone, Copy)]\n"
+VERUS.append(dict(
+    name="window_frame_reverse",
+    uses="use vstd::prelude::*;\n",
+    prelude="prelude_reverse.rs", proofs="proofs_reverse.rs", witness="witness_reverse.rs", rlimit=60, min_verified=1, twins=[], std_specs=False,
+    items=[
+        dict(file=FWF, path=["enum WindowFrameUnits"], prefix=_DERC),
+        dict(file=FWF, path=["enum WindowFrameBound"], prefix=_DERC),
+        dict(file=FWF, path=["struct WindowFrame"], prefix=_DERC),
+        dict(file=FWF, path=["impl WindowFrame", "fn reverse"], wrap="impl WindowFrame", ret="r",
+             edits=[dict(rule="R3", regex=r"value\.clone\(\)", replace="*value", count=4)],
+             contract="""    ensures r.units == self.units,
+        // the reversed frame on the reversed partition selects the mirror image of the frame (ROWS semantics)
+        mirrors(*self, r),"""),
+    ],
+    mutants=[
+        dict(name="reverse_keeps_direction", item="reverse", find="WindowFrameBound::Preceding(value) => {\n                WindowFrameBound::Following(*value)", replace="WindowFrameBound::Preceding(value) => {\n                WindowFrameBound::Preceding(*value)"),
+        dict(name="reverse_does_not_exchange_bounds", item="reverse", find="let start_bound = match &self.end_bound {", replace="let start_bound = match &self.start_bound {"),
+    ],
+))
 KANI = [dict(package="datafusion-common", module="common/utils.rs", timeout=900, harnesses=[
     dict(name="c09_search_in_slice_bounded", complete=False, bound="5 rows, arbitrary predicate (2^5), every 0 <= low <= high <= 5; get_row_at_idx stubbed (row i = [UInt64(i)])",
          what="Kani twin of the Verus unit on the unextracted search_in_slice: first row of [low, high) failing the predicate, or high"),
@@ -146,6 +167,6 @@ TRUSTED = ["Verus 0.2026.09.13 + bundled Z3", "global size_of usize == 8", "type
            "rewrites R9 (error macros -> opaque error), R11 (std::cmp::min -> verified min_usize)"]
 ASSUMPTIONS = ["precondition idx < length (callers iterate idx over 0..length)", "error content (message text) not verified"]
 NOT_COVERED = ["RANGE frames and WindowFrameStateGroups::calculate_index_of_row (VecDeque::back_mut with &mut tuple patterns: outside the Verus subset; matching on WindowFrameBound makes kani-compiler 0.68 panic at rvalue.rs:1009)", "window function evaluators, sliding retraction, executors"]
-TRUSTED += ["ASSUMED contract of get_row_at_idx (Arrow access) and of UInt64Array::from (prelude_search.rs / prelude_ntile.rs)", "G1: ghost parameter naming the predicate the comparison closure decides"]
+TRUSTED += ["window_frame_reverse: Copy type model of ScalarValue (UInt64 offsets), WindowFrame::new_bounds behind an assumed contract (stores units and bounds as given)", "ASSUMED contract of get_row_at_idx (Arrow access) and of UInt64Array::from (prelude_search.rs / prelude_ntile.rs)", "G1: ghost parameter naming the predicate the comparison closure decides"]
 ASSUMPTIONS += ["NtileEvaluator.n >= 1 (rejected at construction otherwise), num_rows <= isize::MAX", "find_bisect_point: the predicate is prefix-closed on [low, high) (sortedness of the ORDER BY column)"]
 EXPLANATION = "ROWS frame bounds proved equal to the mathematical frame definition for every u64 offset, every idx < length, with no arithmetic overflow."
